@@ -417,3 +417,35 @@ Definition pool_spec {R} (red : list Z -> option R) (shape data ks ss : list Z) 
   end.
 (* both modes agree with PyTorch on every valid argument *)
 Definition pool_dom (shape ks ss : list Z) (ceil : bool) : bool := valid_pool_args shape ks ss.
+
+(* =====================================================================================================
+   softmax / softmin as expression trees over ANY scalar structure (floats included): view/softmax.hpp:23
+     a = reduce_maximum(x, axis, None, None, keepdims=True);  b = x - a;  c = exp(b);
+     d = reduce_add(c, axis, None, None, keepdims=True);      return c / d
+   A keepdims reduction along [ax] has extent 1 there; broadcasting it back reads it with component [ax] set to 0.
+   ===================================================================================================== *)
+Section Softmax.
+Variables (A : Type) (sub div add mx : A -> A -> A) (ex neg : A -> A) (dflt : A).
+(* the slice of x through index i along axis ax, in index order *)
+Definition along (x : list Z -> A) (shape : list Z) (ax : nat) (i : list Z) : list A :=
+  map (fun k => x (upd i ax k)) (zrange (nth ax shape 0)).
+Definition fold1 (f : A -> A -> A) (l : list A) : A := match l with [] => dflt | h :: t => fold_left f t h end.
+Definition reduce_keep (f : A -> A -> A) (x : list Z -> A) (shape : list Z) (ax : nat) : list Z -> A :=
+  fun j => fold1 f (along x shape ax j).
+Definition bcast_keep (r : list Z -> A) (ax : nat) : list Z -> A := fun i => r (upd i ax 0).
+(* Model: the view composition of softmax.hpp *)
+Definition softmax_model (x : list Z -> A) (shape : list Z) (ax : nat) : list Z -> A :=
+  let a := reduce_keep mx x shape ax in
+  let b := fun i => sub (x i) (bcast_keep a ax i) in
+  let c := fun i => ex (b i) in
+  let d := reduce_keep add c shape ax in
+  fun i => div (c i) (bcast_keep d ax i).
+Definition softmin_model (x : list Z -> A) (shape : list Z) (ax : nat) : list Z -> A :=
+  softmax_model (fun i => neg (x i)) shape ax.
+(* Spec: the definition with ITS stabilisation — the maximum m is the maximum of the slice through i along the axis
+   (one maximum per slice, never one maximum for the whole array) *)
+Definition softmax_spec (x : list Z -> A) (shape : list Z) (ax : nat) (i : list Z) : A :=
+  let m := fold1 mx (along x shape ax i) in
+  div (ex (sub (x i) m))
+      (fold1 add (map (fun k => ex (sub (x (upd i ax k)) m)) (zrange (nth ax shape 0)))).
+End Softmax.
